@@ -13,8 +13,10 @@
 (*     c: the class of the i-th line as decided by the INDEPENDENT         *)
 (*     classifier, v its interned text, h the interned header / trailer    *)
 (*     content the classifier extracted; the other fields are what the     *)
-(*     real code shows for the PREFIX of i lines (prefix closure): ok      *)
-(*     lenient constructor returned, sr strict raised ChangelogParseError, *)
+(*     real code shows for the PREFIX of i lines (prefix closure): ok no   *)
+(*     unexpected exception (lenient constructor returned, strict returned *)
+(*     or raised ChangelogParseError, str() returned or raised             *)
+(*     ChangelogCreateError), sr strict raised ChangelogParseError,        *)
 (*     w number of warnings, nb number of blocks, ini / ch / tr numbers of *)
 (*     initial lines / change lines per block / trailing lines per block,  *)
 (*     fmt str() succeeded, nf the fixpoint law held on the formatted      *)
@@ -25,8 +27,9 @@
 (*  [kind |-> "edit", aea, lines, bl0, ops]                                *)
 (*     lines as above (only c, v, h used): the text parsed first, bl0 the  *)
 (*     blocks the real parser produced for it;                             *)
-(*     ops[i] = [op, v, fmt, nf, bl]: the editing call, its interned       *)
-(*     arguments, and after it: str() succeeded, the fixpoint law held,    *)
+(*     ops[i] = [op, v, ok, fmt, nf, bl]: the editing call, its interned   *)
+(*     arguments, and after it: ok no unexpected exception (from the call  *)
+(*     or from str()), str() succeeded, the fixpoint law held,             *)
 (*     the interned (package, version, distributions, urgency, changes,    *)
 (*     author, date) of every block.                                       *)
 (*                                                                         *)
@@ -113,6 +116,7 @@ TEdit ==
           d2 == EditApply(D, e.op, e.v)
       IN /\ EditEnabled(D, e.op)
          /\ D' = d2
+         /\ e.ok                                                     \* the call returned; str() returned or said "incomplete"
          /\ (e.fmt /\ Specified(d2)) => e.nf                         \* C15, histories
          /\ (~VerdictOnly => (e.fmt = Formattable(d2) /\ e.bl = BlocksProj(d2)))
          /\ ((~VerdictOnly /\ l = 1) => Tr.bl0 = BlocksProj(D))
